@@ -62,6 +62,8 @@ def pred_addr(ops, impl):
             if out.startswith("ok ") and out[3:] != t[3]:
                 return "%s: validation returned another string `%s`" % (where, out[3:80])
         elif kind == "make" and len(t) == 5:
+            if out.startswith("trait-mismatch"):
+                return "%s: the conversion helpers (IntoAddr / IntoBech32 / IntoBech32m) and addr_make of the same codec disagree: %s" % (where, out[:200])
             if out == "err":
                 return "%s: addr_make returned an error value" % where
             made.setdefault((t[1], t[2], t[3]), set()).add(out)
